@@ -484,6 +484,7 @@ def c30(ck, F, tier):
         "and the id lookup is a first-match loop. Aliasing through imported num_fmts that redefine a built-in id is not decided.")
     ck.rule("COVER-style", "every Style field is interned and read back from its own slot", floor=20, exhaustive=True)
     guarded(ck, ra.cover_style, F)
+    guarded(ck, ra.intern_exact, F)
 
 
 def c32(ck, F, tier):
